@@ -18,6 +18,7 @@ UNSAT, SAT, UNKNOWN = "unsat", "sat", "unknown"
 # loops, so a watchdog thread interrupts the context when the process has used its budget; the wall-clock limit (WALL_FACTOR x the
 # budget) is only a safety net.
 WALL_FACTOR = 30
+SCALE = float(os.environ.get("VERIF_BUDGET_SCALE", "1") or 1)    # < 1 emulates a slower machine (margin test: tools/refresh.sh --margin)
 
 
 def cpu_check(s, budget_ms):
@@ -25,6 +26,7 @@ def cpu_check(s, budget_ms):
     import threading
 
     s.set("timeout", int(budget_ms * WALL_FACTOR))
+    budget_ms = budget_ms * SCALE
     c0 = time.process_time()
     done = threading.Event()
 
@@ -151,7 +153,7 @@ def external(smt2, tool, timeout_s):
         cmd = ["/usr/bin/cvc5", fn] if tool == "cvc5" else ["/usr/bin/z3", fn]
         try:
             out = subprocess.run(cmd, capture_output=True, text=True, timeout=timeout_s * WALL_FACTOR + 5,
-                                 preexec_fn=_cpu_limit(timeout_s)).stdout.strip()
+                                 preexec_fn=_cpu_limit(max(1, timeout_s * SCALE))).stdout.strip()
         except subprocess.TimeoutExpired:
             return UNKNOWN
         first = out.splitlines()[0].strip() if out else ""
@@ -195,8 +197,14 @@ def discharge(ob, timeout_s=10, second_solver=False):
                 ob.backend = "z3-5.1(py) (model of the quantified query)"
             if st != UNKNOWN:
                 break
+    if st == UNKNOWN and has_q:
+        # a solver with different heuristics before more time is spent on the same ones (z3 4.8 decides in 0.2 s what z3 5.1
+        # does not decide in minutes, and vice versa); only `unsat` is taken from it here
+        if external(solver.to_smt2(), "z3-4.8", 5) == UNSAT:
+            st, model = UNSAT, None
+            ob.backend = "z3-4.8"
     if st == UNKNOWN:
-        first = timeout_s * 1000 if not has_q else min(3000, timeout_s * 1000)
+        first = timeout_s * 1000 if not has_q else min(6000, timeout_s * 1000)
         st, model, solver = _check(query, first)
         if st == SAT and has_q:
             ob.backend = "z3-5.1(py) (model of the quantified query)"
@@ -209,8 +217,9 @@ def discharge(ob, timeout_s=10, second_solver=False):
             ob.backend = "z3-5.1(py)+ground-instantiation"
         else:
             smt2 = solver.to_smt2()
-            ext_t = max(3, timeout_s // 2)
-            for tool in ("cvc5", "z3-4.8"):
+            # generous budgets: these stages are only reached by the few obligations the in-process attempts leave open, and an
+            # obligation of the unchanged tree that is decided here must stay decided on a slower machine
+            for tool, ext_t in (("cvc5", max(5, timeout_s // 2)), ("z3-4.8", max(20, timeout_s))):
                 r = external(smt2, tool, ext_t)
                 if r == UNSAT:
                     st, model = UNSAT, None
